@@ -9,213 +9,580 @@ R01.4 the failure flags of the last pressure evaluation are consulted before suc
 R01.5 flag typestate: reset on entry of the evaluation that may lower them; no other writers
 R01.6 history independence: fresh solver objects per manager call; closed table of stores to long-lived objects
 R01.7 the configured tolerances / grid sizes reach the constructors of the solver objects (results are a function of model and settings)
+
+Locals are identified by their role (what is assigned to them, which argument position of a known API call they fill), never by
+their spelling; expressions are compared through normal forms (nf.py) that look through temporaries and simple extracted helpers.
 """
 from __future__ import annotations
 
 import ast
+from fractions import Fraction
 
 from ..core import AnchorMissing, Check, Undecided, attr_stores, calls_in, dotted, kwarg, own_nodes, src, walk_guarded
 from ..flow import CFG, reads_of
 from ..hydro import n
+from ..nf import Ctx, P, eqx, has, ids_in, match, nf, parse_pattern, same
 
 LEVEL = "other"
 EOM = "equationOfMotion:EOM"
-SETTERS = {"setWallParams": 1, "setBoltzmannResults": 2, "setBoltzmannBackground": 3, "setHydroResults": 4}
+# result setter -> (its parameter, position of that datum in the tuple returned by wallPressure)
+SETTERS = {"setWallParams": ("wallParams", 1), "setBoltzmannResults": ("boltzmannResults", 2), "setBoltzmannBackground": ("boltzmannBackground", 3),
+           "setHydroResults": ("hydroResults", 4)}
+# parameters of EOM.solveWall carrying a cached evaluation -> the velocity (parameter) that evaluation belongs to
+CACHED_AT = {"wallPressureResultsMax": "wallVelocityMax", "wallPressureResultsMin": "wallVelocityMin"}
 
 
-def _wallpressure_return_order(chk: Check) -> list[str]:
+# ------------------------------------------------------------------------------------------------ spelling-independent helpers
+
+
+def _assigns(fnode) -> list:
+    return [x for x in own_nodes(fnode) if isinstance(x, (ast.Assign, ast.AnnAssign)) and x.value is not None]
+
+
+def _target(st):
+    return st.targets[0] if isinstance(st, ast.Assign) else st.target
+
+
+def _result_name(fi) -> str:
+    """the local that holds the WallGoResults object under construction"""
+    names = []
+    for st in _assigns(fi.node):
+        b = match(st, "__R = WallGoResults()")
+        if b is not None and b["R"] not in names:
+            names.append(b["R"])
+    if len(names) != 1:
+        raise AnchorMissing(f"{fi.qual}: the local holding the WallGoResults() under construction not found")
+    return names[0]
+
+
+def _method_stmts(g: CFG, obj: str, methods) -> list:
+    """expression statements `obj.<method>(...)`"""
+    return [x for x in g.nodes if isinstance(x, ast.Expr) and isinstance(x.value, ast.Call) and isinstance(x.value.func, ast.Attribute)
+            and isinstance(x.value.func.value, ast.Name) and x.value.func.value.id == obj and x.value.func.attr in methods]
+
+
+def _is_none(e) -> bool:
+    return isinstance(e, ast.Constant) and e.value is None
+
+
+def _positive(test, pol: bool, cx: Ctx | None = None):
+    """(expression, polarity) with temporaries inlined and leading `not`s folded into the polarity"""
+    e = cx.resolve(test) if cx is not None else test
+    while isinstance(e, ast.UnaryOp) and isinstance(e.op, ast.Not):
+        e, pol = e.operand, not pol
+    return e, pol
+
+
+def _dominating_tests(g: CFG, node) -> list:
+    """(test, polarity) of every if / while test that every path to `node` passes and that lets `node` be reached from one branch only"""
+    out = []
+    for t in g.nodes:
+        if g.kind.get(t) != "test" or t is node:
+            continue
+        if not g.must_pass(CFG.ENTRY, node, lambda q, t=t: q is t):
+            continue
+        tb = g.reaches(g.branch(t, True), node, avoid=lambda q, t=t: q is t)
+        fb = g.reaches(g.branch(t, False), node, avoid=lambda q, t=t: q is t)
+        if tb != fb:
+            out.append((t, tb))
+    return out
+
+
+def _relations(e, cx: Ctx | None = None) -> set:
+    """the binary relations asserted by a conjunction of (chained) comparisons, as normal forms: `a < b < c` == `a < b and c > b`"""
+    out: set = set()
+    if isinstance(e, ast.BoolOp) and isinstance(e.op, ast.And):
+        for v in e.values:
+            out |= _relations(v, cx)
+    elif isinstance(e, ast.Compare):
+        left = e.left
+        for op, right in zip(e.ops, e.comparators):
+            out.add(nf(ast.Compare(left=left, ops=[op], comparators=[right]), cx))
+            left = right
+    else:
+        out.add(nf(e, cx))
+    return out
+
+
+def _holds_under(g: CFG, node, relations, cx: Ctx) -> bool:
+    """`node` is reached only through the branch of a test on which all `relations` (pattern texts) hold"""
+    want = {P(r, cx) for r in relations}
+    for t, pol in _dominating_tests(g, node):
+        e, pol = _positive(t, pol, cx)
+        if pol and want <= _relations(e, cx):
+            return True
+    return False
+
+
+def _definition(cx: Ctx, e):
+    """the expression a chain of single-assignment temporaries stands for (node identity is kept)"""
+    defs = cx.local_defs()
+    for _ in range(8):
+        if isinstance(e, ast.Name) and e.id in defs:
+            e = defs[e.id]
+        else:
+            break
+    return e
+
+
+def _is_value_of(cx: Ctx, e, node) -> bool:
+    """expression e is (a temporary holding) exactly the value computed by `node`"""
+    return e is not None and _definition(cx, e) is node
+
+
+def _through(g: CFG, at, e, depth: int = 0):
+    """copy of expression e (evaluated at CFG node `at`) with every local replaced by its defining expression when exactly one plain
+    assignment reaches `at` and the names in that expression still have the same reaching definitions at `at` (so the replacement
+    denotes the same value).  Unlike Ctx.resolve this also looks through temporaries assigned inside loops."""
+    import copy
+
+    class R(ast.NodeTransformer):
+        def visit_Name(self, x):
+            if not isinstance(x.ctx, ast.Load) or depth >= 4:
+                return x
+            rd = g.reaching_defs(at, x.id)
+            if len(rd) != 1 or rd[0] is CFG.ENTRY or not isinstance(rd[0], (ast.Assign, ast.AnnAssign)) or rd[0].value is None:
+                return x
+            d = rd[0]
+            tg = d.targets if isinstance(d, ast.Assign) else [d.target]
+            if len(tg) != 1 or not isinstance(tg[0], ast.Name) or d is at:
+                return x
+            inner = {y.id for y in ast.walk(d.value) if isinstance(y, ast.Name)}
+            if any(set(map(id, g.reaching_defs(d, nm))) != set(map(id, g.reaching_defs(at, nm))) for nm in inner if nm != x.id):
+                return x
+            if x.id in inner:
+                return x
+            return _through(g, d, d.value, depth + 1)
+
+        def visit_Lambda(self, x):
+            return x
+
+    return R().visit(copy.deepcopy(e))
+
+
+def _wallpressure_call(v) -> bool:
+    return isinstance(v, ast.Call) and eqx(v.func, "self.wallPressure")
+
+
+def _tuple_sources(g: CFG, at, v, depth: int = 0) -> list:
+    """where a 5-tuple of pressure results comes from: ('call', wallPressure call) | ('param', name) | ('other', text); looks through
+    plain copies / temporaries by reaching definitions"""
+    if _wallpressure_call(v):
+        return [("call", v)]
+    if isinstance(v, ast.Name) and depth < 4:
+        out = []
+        for d in g.reaching_defs(at, v.id):
+            if d is CFG.ENTRY:
+                out.append(("param", v.id))
+            elif isinstance(d, (ast.Assign, ast.AnnAssign)) and isinstance(_target(d), ast.Name) and d.value is not None:
+                out += _tuple_sources(g, d, d.value, depth + 1)
+            else:
+                out.append(("other", n(d)[:60]))
+        return out
+    return [("other", n(v)[:60])]
+
+
+def _velocity_of(source, cx: Ctx) -> str:
+    """normal form of the velocity a pressure evaluation was made at"""
+    kind, x = source
+    if kind == "call":
+        v = kwarg(x, "wallVelocity", 0)
+        return nf(_definition(cx, v), cx) if v is not None else "?"
+    if kind == "param":
+        return CACHED_AT.get(x, f"?{x}")
+    return f"?{x}"
+
+
+def _origins(g: CFG, at, name: str, depth: int = 0) -> list:
+    """(definition, defined name) pairs of `name` reaching `at`, looking through plain copies `a = b`"""
+    out = []
+    for d in g.reaching_defs(at, name):
+        if d is not CFG.ENTRY and isinstance(d, (ast.Assign, ast.AnnAssign)) and isinstance(_target(d), ast.Name) and isinstance(d.value, ast.Name) and depth < 4:
+            out += _origins(g, d, d.value.id, depth + 1)
+        else:
+            out.append((d, name))
+    return out
+
+
+class _SolveWall:
+    """roles of the locals of EOM.solveWall"""
+
+    def __init__(self, chk: Check):
+        S = chk.src
+        self.fs = fs = S.func(f"{EOM}.solveWall")
+        chk.touch(fs.name)
+        self.g = g = CFG(fs.node)
+        self.cx = cx = Ctx(S, fs)
+        self.R = _result_name(fs)
+        # all tuple sources: unpack of a wallPressure call or of a passed-in tuple
+        self.unpacks = {}
+        for x in g.nodes:
+            if isinstance(x, ast.Assign) and isinstance(x.targets[0], ast.Tuple) and len(x.targets[0].elts) == 5 and all(isinstance(e, ast.Name) for e in x.targets[0].elts):
+                self.unpacks[x] = [e.id for e in x.targets[0].elts]
+        self.sources = {d: _tuple_sources(g, d, d.value) for d in self.unpacks}
+        self.vel = {d: {_velocity_of(s_, cx) for s_ in ss} for d, ss in self.sources.items()}
+        self.labels = _method_stmts(g, self.R, {"setSuccessState"})
+        self.setters = _method_stmts(g, self.R, set(SETTERS))
+        self.velset = _method_stmts(g, self.R, {"setWallVelocities"})
+        if len(self.setters) < 12 or len(self.velset) < 3:
+            raise AnchorMissing("solveWall: result setters not found")
+
+    def end_pressure(self, which: str) -> set:
+        """names of the local holding the pressure at one end of the window: element 0 of the unpacked cached evaluation of that end"""
+        out = set()
+        for d, ss in self.sources.items():
+            if any(s_ == ("param", which) for s_ in ss):
+                out.add(self.unpacks[d][0])
+        return out
+
+
+def _wallpressure_return_order(chk: Check) -> None:
+    """wallPressure returns (pressure, wallParams, boltzmannResults, boltzmannBackground, hydroResults): element i of the returned tuple
+    is element i of what the iteration routines return (or the mean of the last pressures), the last one is the HydroResults built here"""
     fw = chk.src.func(f"{EOM}.wallPressure")
-    rets = [r for r in own_nodes(fw.node) if isinstance(r, ast.Return) and isinstance(r.value, ast.Tuple)]
-    if len(rets) != 1:
+    g = CFG(fw.node)
+    cx = Ctx(chk.src, fw)
+    rets = [r for r in g.nodes if isinstance(r, ast.Return)]
+    vals = [cx.resolve(r.value, keep=set(cx.local_defs())) if r.value is not None else None for r in rets]
+    # a returned temporary holding the tuple is looked through
+    vals = [cx.local_defs().get(v.id, v) if isinstance(v, ast.Name) else v for v in vals]
+    if len(rets) != 1 or not isinstance(vals[0], ast.Tuple):
         raise AnchorMissing("wallPressure: single tuple return not found")
-    order = [n(e) for e in rets[0].value.elts]
-    chk.ob("R01.1", fw.where(rets[0]), "wallPressure returns (pressure, wallParams, boltzmannResults, boltzmannBackground, hydroResults)",
-           order == ["pressure", "wallParams", "boltzmannResults", "boltzmannBackground", "hydroResults"], str(order), key="return-order")
-    return order
+    ret, elts = rets[0], vals[0].elts
+    detail = []
+    ok = len(elts) == 5 and all(isinstance(e, ast.Name) for e in elts)
+    if ok:
+        for i, e in enumerate(elts):
+            for d, nm in _origins(g, ret, e.id):
+                good = False
+                if d is not CFG.ENTRY and isinstance(d, ast.Assign):
+                    v, t = d.value, d.targets[0]
+                    if i < 4 and isinstance(t, ast.Tuple) and isinstance(v, ast.Call) and (eqx(v.func, "self._intermediatePressureResults") or eqx(v.func, "self._getNextPressure")):
+                        names = [x.id if isinstance(x, ast.Name) else None for x in t.elts]
+                        good = nm in names and names.index(nm) == i and names.count(nm) == 1
+                    elif i == 0 and isinstance(t, ast.Name) and match(_through(g, d, v), "np.mean(__P[-4:])", cx) is not None:
+                        good = True
+                    elif i == 4 and isinstance(t, ast.Name) and isinstance(cx.resolve(v), ast.Call) and eqx(cx.resolve(v).func, "HydroResults"):
+                        good = True
+                if not good:
+                    ok = False
+                    detail.append(f"element {i} <- {n(d)[:70] if d is not CFG.ENTRY else 'argument'}")
+    chk.ob("R01.1", fw.where(ret), "wallPressure returns (pressure, wallParams, boltzmannResults, boltzmannBackground, hydroResults)",
+           ok, "; ".join(detail)[:300], key="return-order")
 
 
 def r01_1(chk: Check):
     S = chk.src
     _wallpressure_return_order(chk)
-    fs = S.func(f"{EOM}.solveWall")
-    chk.touch(fs.name)
-    g = CFG(fs.node)
-    # all tuple sources: unpack of a wallPressure call or of a passed-in tuple
-    unpacks = {}
-    for x in g.nodes:
-        if isinstance(x, ast.Assign) and isinstance(x.targets[0], ast.Tuple) and len(x.targets[0].elts) == 5:
-            unpacks[x] = [n(e) for e in x.targets[0].elts]
-    # group the setter calls by the setSuccessState call that labels them (same basic region)
-    labels = [x for x in g.nodes if isinstance(x, ast.Expr) and isinstance(x.value, ast.Call) and n(x.value.func) == "results.setSuccessState"]
-    setters = [x for x in g.nodes if isinstance(x, ast.Expr) and isinstance(x.value, ast.Call) and isinstance(x.value.func, ast.Attribute)
-               and n(x.value.func.value) == "results" and x.value.func.attr in SETTERS]
-    velset = [x for x in g.nodes if isinstance(x, ast.Expr) and isinstance(x.value, ast.Call) and n(x.value.func) == "results.setWallVelocities"]
-    if len(setters) < 12 or len(velset) < 3:
-        raise AnchorMissing("solveWall: result setters not found")
-    for vs in velset:
+    sw = _SolveWall(chk)
+    fs, g, cx, R = sw.fs, sw.g, sw.cx, sw.R
+    others = lambda vs: (lambda q: q in sw.velset and q is not vs)
+
+    def same_exit(vs, s_) -> bool:
+        """a path joins the two statements (in either order) without passing another setWallVelocities"""
+        return s_ in g.reachable(vs, avoid=others(vs)) or vs in g.reachable(s_, avoid=others(vs))
+
+    reported = None
+    for vs in sw.velset:
         c = vs.value
         v = kwarg(c, "wallVelocity", 0)
-        mine = [s_ for s_ in setters if s_ in g.reachable(vs) and not any(v2 in g.reachable(vs) and s_ in g.reachable(v2) for v2 in velset if v2 is not vs)]
+        vr = _definition(cx, v) if v is not None else None
+        # the setters of the same exit: connected to this setWallVelocities with no other setWallVelocities in between
+        mine = [s_ for s_ in sw.setters if same_exit(vs, s_)]
         sources = set()
         detail = []
         ok = True
         for s_ in mine:
-            a = s_.value.args[0]
-            pos = SETTERS[s_.value.func.attr]
-            rd = g.reaching_defs(s_, n(a)) if isinstance(a, ast.Name) else []
-            rd = [d for d in rd if d in unpacks]
-            if not rd:
+            par, pos = SETTERS[s_.value.func.attr]
+            a = kwarg(s_.value, par, 0)
+            org = _origins(g, s_, a.id) if isinstance(a, ast.Name) else []
+            if not org or any(d not in sw.unpacks for d, nm in org):
                 ok = False
                 detail.append(f"{s_.value.func.attr}({n(a)}): not from a wallPressure tuple")
                 continue
-            for d in rd:
-                if unpacks[d].index(n(a)) != pos:
+            for d, nm in org:
+                if sw.unpacks[d].index(nm) != pos or sw.unpacks[d].count(nm) != 1:
                     ok = False
-                    detail.append(f"{s_.value.func.attr}({n(a)}) takes tuple position {unpacks[d].index(n(a))}, expected {pos}")
-                srcv = d.value
-                if isinstance(srcv, ast.Call) and n(srcv.func) == "self.wallPressure":
-                    sources.add("wallPressure(" + n(srcv.args[0]) + ")")
-                else:
-                    sources.add(n(srcv))
-        kind = "finite velocity" if not (isinstance(v, ast.Constant) and v.value is None) else "no velocity"
+                    detail.append(f"{s_.value.func.attr}({n(a)}) takes tuple position {sw.unpacks[d].index(nm)}, expected {pos}")
+                sources |= sw.vel[d]
+        finite = not _is_none(vr)
+        kind = "finite velocity" if finite else "no velocity"
         # all setters of one exit draw on evaluations at one velocity
-        vel_args = {s_[len("wallPressure("):-1] if s_.startswith("wallPressure(") else {"wallPressureResultsMax": "wallVelocityMax", "wallPressureResultsMin": "wallVelocityMin"}.get(s_, s_)
-                    for s_ in sources}
-        ok = ok and len(vel_args) == 1 and len(mine) == 4
-        if kind == "finite velocity":
-            ok = ok and vel_args == {n(v)}
+        ok = ok and len(sources) == 1 and len(mine) == 4 and not any(s_.startswith("?") for s_ in sources)
+        if finite:
+            reported = v
+            ok = ok and sources == {nf(vr, cx)}
+            role = "reported velocity"
+        else:
+            role = {"wallVelocityMax": "upper end", "wallVelocityMin": "lower end"}.get(next(iter(sources)), "other") if len(sources) == 1 else "mixed"
         chk.ob("R01.1", fs.where(vs), f"exit with {kind}: wall parameters, Boltzmann results, background and hydro results stored with it are tuple "
-               f"positions 1-4 of pressure evaluation(s) at one velocity" + (" -- the reported one" if kind == "finite velocity" else ""),
-               ok, "; ".join(detail) + f" sources={sorted(sources)}", key=f"provenance|{kind}|{sorted(vel_args)}")
+               f"positions 1-4 of pressure evaluation(s) at one velocity" + (" -- the reported one" if finite else ""),
+               ok, "; ".join(detail) + f" evaluated at {sorted(sources)}", key=f"provenance|{kind}|{role}")
     # the reported velocity is the brentq root of the wrapper
     rs = [c for c in calls_in(fs.node, "root_scalar")]
-    ok = len(rs) == 1 and n(rs[0].args[0]) == "pressureWrapper" and n(kwarg(rs[0], "bracket")).replace(" ", "") == "[wallVelocityMin,wallVelocityMax]" \
-        and n(kwarg(rs[0], "xtol")) == "self.errTol" and n(kwarg(rs[0], "method")).strip("'\"") == "brentq"
+    W = None
+    ok = False
+    if len(rs) == 1:
+        f0 = kwarg(rs[0], "f", 0)
+        f0 = cx.resolve(f0) if f0 is not None else None
+        if isinstance(f0, ast.Name) and S.has_func(f"{EOM}.solveWall.{f0.id}"):
+            W = f0.id
+        br, xt, me = kwarg(rs[0], "bracket", 3), kwarg(rs[0], "xtol", 8), kwarg(rs[0], "method", 2)
+        ok = W is not None and (eqx(br, "[wallVelocityMin, wallVelocityMax]", cx) or eqx(br, "(wallVelocityMin, wallVelocityMax)", cx)) \
+            and eqx(xt, "self.errTol", cx) and eqx(me, "'brentq'", cx)
     chk.ob("R01.1", fs.where(), "the velocity is root_scalar(pressureWrapper, brentq, bracket=[vMin, vMax], xtol=self.errTol).root", ok, key="root")
-    wv = [x for x in g.nodes if isinstance(x, ast.Assign) and n(x.targets[0]) == "wallVelocity"]
-    ok = len(wv) == 1 and n(wv[0].value) == "optimizeResult.root"
+    ok = False
+    if reported is not None and len(rs) == 1:
+        # the reported velocity stands for the `.root` of that search only when every local on the way is assigned exactly once
+        val = _definition(cx, reported)
+        ok = isinstance(val, ast.Attribute) and val.attr == "root" and _is_value_of(cx, val.value, rs[0])
     chk.ob("R01.1", fs.where(), "wallVelocity is that root and is not modified afterwards", ok, key="root-unmodified")
-    fw = S.func(f"{EOM}.solveWall.pressureWrapper")
-    rets = [r for r in own_nodes(fw.node) if isinstance(r, ast.Return)]
-    kinds = sorted(n(r.value) for r in rets)
-    ok = len(rets) == 3 and "pressureMin" in kinds and "pressureMax" in kinds and any(k.startswith("self.wallPressure(vw,") and k.endswith("[0]") for k in kinds)
-    chk.ob("R01.1", fw.where(), "pressureWrapper returns element 0 (the pressure) of wallPressure(vw, ...) or the cached end-point pressures", ok, str(kinds)[:200],
-           key="wrapper")
+    if W is None:
+        raise AnchorMissing("solveWall: the nested pressure wrapper handed to root_scalar not found")
+    fw = S.func(f"{EOM}.solveWall.{W}")
+    gw = CFG(fw.node)
+    cw = Ctx(S, fw)
+    prm = [a_.arg for a_ in fw.node.args.args]
+    VW = prm[0] if prm else "?"
+    PMIN, PMAX = sw.end_pressure("wallPressureResultsMin"), sw.end_pressure("wallPressureResultsMax")
+    rets = [r for r in gw.nodes if isinstance(r, ast.Return)]
+    kinds = {}
+    for r in rets:
+        v = cw.resolve(r.value) if r.value is not None else None
+        if isinstance(v, ast.Name) and v.id in PMIN:
+            kinds.setdefault("min", []).append(r)
+        elif isinstance(v, ast.Name) and v.id in PMAX:
+            kinds.setdefault("max", []).append(r)
+        elif isinstance(v, ast.Subscript) and eqx(v.slice, "0") and _wallpressure_call(v.value) and eqx(kwarg(v.value, "wallVelocity", 0), VW, cw):
+            kinds.setdefault("eval", []).append(r)
+        else:
+            kinds.setdefault("other", []).append(r)
+    ok = len(PMIN) == 1 and len(PMAX) == 1 and set(kinds) == {"min", "max", "eval"}
+    chk.ob("R01.1", fw.where(), "pressureWrapper returns element 0 (the pressure) of wallPressure(vw, ...) or the cached end-point pressures", ok,
+           str({k: len(v) for k, v in kinds.items()}), key="wrapper")
     ends = {}
-    for guards, st in walk_guarded(fw.node):
-        if isinstance(st, ast.Return) and n(st.value) in ("pressureMin", "pressureMax"):
-            ends[n(st.value)] = " ".join(n(t) for t, pol in guards if pol and not isinstance(t, tuple))
-    ok = "wallVelocityMin" in ends.get("pressureMin", "") and "wallVelocityMax" not in ends.get("pressureMin", "") and \
-        "wallVelocityMax" in ends.get("pressureMax", "") and "wallVelocityMin" not in ends.get("pressureMax", "")
-    chk.ob("R01.1", fw.where(), "the cached pressure of each end is returned only at (or beyond) that end", ok, str(ends), key="wrapper-ends")
+    for which, mine_, other in (("min", "wallVelocityMin", "wallVelocityMax"), ("max", "wallVelocityMax", "wallVelocityMin")):
+        good = bool(kinds.get(which))
+        for r in kinds.get(which, []):
+            hit = False
+            for t, pol in _dominating_tests(gw, r):
+                e, pol = _positive(t, pol, cw)
+                if pol and mine_ in ids_in(e) and other not in ids_in(e):
+                    hit = True
+            good = good and hit
+        ends[which] = good
+    chk.ob("R01.1", fw.where(), "the cached pressure of each end is returned only at (or beyond) that end", ends["min"] and ends["max"], str(ends), key="wrapper-ends")
     # bracket endpoints: pressureMin/Max are evaluations at wallVelocityMin/Max
     ok = True
-    for nm, vel in (("pressureMax", "wallVelocityMax"), ("pressureMin", "wallVelocityMin")):
-        for d, names in unpacks.items():
-            if names[0] == nm and isinstance(d.value, ast.Call) and n(d.value.func) == "self.wallPressure":
-                if n(d.value.args[0]) != vel:
-                    ok = False
+    for names, vel in ((PMAX, "wallVelocityMax"), (PMIN, "wallVelocityMin")):
+        for d, lst in sw.unpacks.items():
+            if lst[0] in names:
+                for s_ in sw.sources[d]:
+                    if s_[0] == "call" and _velocity_of(s_, cx) != vel:
+                        ok = False
+                    if s_[0] == "other":
+                        ok = False
     chk.ob("R01.1", fs.where(), "the end-point pressures are evaluated at the end-point velocities", ok, key="endpoints")
     chk.floor("R01.1", 8)
+
+
+def _deton_bracket(S, fd, g: CFG, cx: Ctx, c: ast.Call):
+    """(ok, detail, name of the pressure at the upper bracket end) for the solveWall call of the detonation search"""
+    at = g.node_of(c)
+    names = ("wallVelocityMin", "wallVelocityMax", "wallParamsGuess", "wallPressureResultsMin", "wallPressureResultsMax")
+    args = [kwarg(c, nm, i) for i, nm in enumerate(names)]
+    if at is None or not all(isinstance(a, ast.Name) for a in args):
+        return False, "arguments are not plain locals", None
+    lo, hi, guess, rlo, rhi = (a.id for a in args)
+    loops = [w for w in own_nodes(fd.node) if isinstance(w, ast.While) and any(y is c for y in ast.walk(w))]
+    if len(loops) != 1:
+        return False, "scan loop not found", None
+    b = match(loops[0].test, "__LO < vmax", cx)
+    if b is None or b["LO"] != lo:
+        return False, f"lower end `{lo}` is not the scan position of the loop `{n(loops[0].test)}`", None
+    defs_hi = [x for x in g.nodes if isinstance(x, ast.Assign) and isinstance(x.targets[0], ast.Name) and x.targets[0].id == hi]
+    if not any(isinstance(y, ast.Call) and (dotted(y.func) or "").endswith("nextStepDeton") for x in defs_hi for y in ast.walk(cx.resolve(x.value))):
+        return False, f"upper end `{hi}` is not the next probed position (nextStepDeton)", None
+    # upper cached evaluation: the wallPressure evaluation at the upper end
+    rd = g.reaching_defs(at, rhi)
+    if len(rd) != 1 or rd[0] is CFG.ENTRY or not isinstance(rd[0], ast.Assign) or not _wallpressure_call(rd[0].value) or not eqx(kwarg(rd[0].value, "wallVelocity", 0), hi):
+        return False, f"`{rhi}` is not the evaluation at `{hi}`", None
+    ev_hi = rd[0]
+    # lower cached evaluation: a deep copy of the previous upper evaluation, which was made at what is now the lower end
+    rd = g.reaching_defs(at, rlo)
+    if len(rd) != 1 or rd[0] is CFG.ENTRY or not isinstance(rd[0], ast.Assign) or not isinstance(rd[0].value, ast.Call) \
+            or not (dotted(rd[0].value.func) or "").endswith("deepcopy") or not rd[0].value.args or not eqx(rd[0].value.args[0], rhi):
+        return False, f"`{rlo}` is not a copy of the previous `{rhi}`", None
+    cp = rd[0]
+    if not g.must_pass(cp, at, lambda q: q is ev_hi) or ev_hi in g.reachable(ev_hi, avoid=lambda q: q is cp):
+        return False, f"`{rhi}` is not re-evaluated exactly once between the copy and the refinement", None
+    for e in g.reaching_defs(cp, rhi):
+        if e is CFG.ENTRY or not isinstance(e, ast.Assign) or not _wallpressure_call(e.value):
+            return False, f"`{rhi}` copied into `{rlo}` is not a pressure evaluation", None
+        ve = kwarg(e.value, "wallVelocity", 0)
+        if eqx(ve, lo):
+            continue
+        if eqx(ve, hi) and g.must_pass(e, cp, lambda q: isinstance(q, ast.Assign) and eqx(q, f"{lo} = {hi}")):
+            continue
+        return False, f"`{rlo}` may hold an evaluation at another velocity than `{lo}`", None
+    # wall-parameter guess: element 1 of the upper evaluation
+    rd = g.reaching_defs(at, guess)
+    if len(rd) != 1 or rd[0] is CFG.ENTRY or not isinstance(rd[0], ast.Assign) or not isinstance(rd[0].targets[0], ast.Tuple) or not eqx(rd[0].value, rhi) \
+            or g.reaching_defs(rd[0], rhi) != [ev_hi]:
+        return False, f"`{guess}` is not taken from the evaluation at `{hi}`", None
+    tn = [x.id if isinstance(x, ast.Name) else None for x in rd[0].targets[0].elts]
+    if len(tn) != 5 or tn.index(guess) != 1 or tn[0] is None:
+        return False, f"`{guess}` is not element 1 (wall parameters) of that evaluation", None
+    return True, "", tn[0]
 
 
 def r01_2(chk: Check):
     S = chk.src
     fd = S.func(f"{EOM}.findWallVelocityDetonation")
     chk.touch(fd.name)
-    asserts = [n(a.test).replace(" ", "") for a in own_nodes(fd.node) if isinstance(a, ast.Assert)]
-    chk.ob("R01.2", fd.where(), "detonation search asserts vJ < vmin < 1 and vmin < vmax < 1",
-           "self.hydrodynamics.vJ<vmin<1" in asserts and "vmin<vmax<1" in asserts, str(asserts), key="deton-window")
+    g = CFG(fd.node)
+    cx = Ctx(S, fd)
+    rel: set = set()
+    for a in own_nodes(fd.node):
+        if isinstance(a, ast.Assert):
+            rel |= _relations(cx.resolve(a.test), cx)
+    want = {P(t, cx) for t in ("self.hydrodynamics.vJ < vmin", "vmin < 1", "vmin < vmax", "vmax < 1")}
+    chk.ob("R01.2", fd.where(), "detonation search asserts vJ < vmin < 1 and vmin < vmax < 1", want <= rel, str(sorted(rel)), key="deton-window")
     calls = calls_in(fd.node, "solveWall")
-    ok = len(calls) == 1 and [n(a) for a in calls[0].args] == ["vw2", "vw3", "wallParams2", "wallPressureResults1", "wallPressureResults2"]
+    ok, detail, PHI = (False, "", None)
+    if len(calls) == 1:
+        ok, detail, PHI = _deton_bracket(S, fd, g, cx, calls[0])
     chk.ob("R01.2", fd.where(), "a detonation root is refined on the bracket [vw2, vw3] with the cached evaluations of exactly these two points", ok,
-           n(calls[0])[:160] if calls else "", key="deton-bracket")
+           detail or (n(calls[0])[:160] if calls else ""), key="deton-bracket")
     guard_ok = False
-    for guards, st in walk_guarded(fd.node):
-        if calls and any(c is calls[0] for c in ast.walk(st)):
-            guard_ok = any(pol and n(t).replace(" ", "") == "pressure3>=0>=pressure2" for t, pol in guards if not isinstance(t, tuple))
+    if PHI is not None:
+        at = g.node_of(calls[0])
+        # the pressure at the lower end: the local the upper pressure is shifted into for the next step
+        plo = [b["PLO"] for st in g.nodes if isinstance(st, ast.Assign) for b in [match(st, f"__PLO = {PHI}")] if b is not None]
+        guard_ok = any(_holds_under(g, at, (f"{PHI} >= 0", f"0 >= {p}"), cx) for p in plo)
     chk.ob("R01.2", fd.where(), "that refinement happens only when the pressure changes sign from <= 0 to >= 0 between them", guard_ok, key="deton-sign")
     fm = S.func("manager:WallGoManager.solveWallDetonation")
     chk.touch(fm.name)
-    d = {n(st.targets[0]): n(st.value).replace(" ", "") for st in own_nodes(fm.node) if isinstance(st, ast.Assign) and isinstance(st.targets[0], ast.Name)}
-    ok = d.get("vmin", "").startswith("max(self.hydrodynamics.vJ+") and "self.hydrodynamics.slowestDeton()" in d.get("vmin", "") and d.get("vmax") == "self.config.configEOM.vwMaxDeton"
-    chk.ob("R01.2", fm.where(), "manager: detonation window = [max(vJ + margin, slowestDeton()), vwMaxDeton]", ok, str({k: d.get(k) for k in ("vmin", "vmax")}), key="manager-window")
+    cm = Ctx(S, fm)
+    users = calls_in(fm.node, "findWallVelocityDetonation")
+    ok = False
+    shown = {}
+    if len(users) == 1:
+        lo, hi = kwarg(users[0], "vmin", 0), kwarg(users[0], "vmax", 1)
+        lo, hi = (cm.resolve(x) if x is not None else None for x in (lo, hi))
+        shown = {"vmin": n(lo) if lo is not None else "", "vmax": n(hi) if hi is not None else ""}
+        margin = None
+        if isinstance(lo, ast.Call) and eqx(lo.func, "max") and len(lo.args) == 2 and not lo.keywords:
+            for a, b in (lo.args, lo.args[::-1]):
+                if eqx(b, "self.hydrodynamics.slowestDeton()"):
+                    # a - vJ must be a positive number
+                    txt = nf(ast.BinOp(left=a, op=ast.Sub(), right=parse_pattern("self.hydrodynamics.vJ")))
+                    try:
+                        margin = Fraction(txt)
+                    except ValueError:
+                        margin = None
+        ok = margin is not None and margin > 0 and eqx(hi, "self.config.configEOM.vwMaxDeton")
+    chk.ob("R01.2", fm.where(), "manager: detonation window = [max(vJ + margin, slowestDeton()), vwMaxDeton]", ok, str(shown), key="manager-window")
     chk.floor("R01.2", 4)
+
+
+def _label_of(b, cx: Ctx):
+    """(text of the solution type, is it certainly not ERROR / possibly ERROR) of a solutionType argument"""
+    if b is None:
+        return "", False
+    r = cx.resolve(b)
+    if isinstance(r, ast.Name):
+        # a computed label: any value ever assigned to the local
+        vals = [st.value for st in own_nodes(cx.fi.node) if isinstance(st, (ast.Assign, ast.AnnAssign)) and st.value is not None and isinstance(_target(st), ast.Name)
+                and _target(st).id == r.id]
+        return "<computed>", any((dotted(cx.resolve(v)) or n(v)).endswith("ERROR") for v in vals)
+    d = dotted(r) or n(r)
+    return d.split(".")[-1], d.endswith("ESolutionType.ERROR")
 
 
 def r01_3(chk: Check):
     S = chk.src
     count = 0
     for fi in S.all_funcs():
+        cf = None
         for c in own_nodes(fi.node):
             if isinstance(c, ast.Call) and isinstance(c.func, ast.Attribute) and c.func.attr == "setSuccessState":
+                cf = cf or Ctx(S, fi)
                 a = kwarg(c, "success", 0)
                 b = kwarg(c, "solutionType", 1)
+                a = cf.resolve(a) if a is not None else None
                 if isinstance(a, ast.Constant) and isinstance(a.value, bool):
-                    is_err = n(b).endswith("ESolutionType.ERROR") if b is not None else False
                     count += 1
                     # a non-constant solution type (variable) is allowed only with success True and must never be ERROR
-                    if isinstance(b, ast.Name):
-                        vals = [st.value for st in own_nodes(fi.node) if isinstance(st, ast.Assign) and n(st.targets[0]) == b.id]
-                        is_err = any(n(v).endswith("ERROR") for v in vals)
+                    label, is_err = _label_of(b, cf)
                     chk.ob("R01.3", fi.where(c), f"setSuccessState({a.value}, {n(b) if b is not None else '?'}): success is False exactly when the label is ERROR",
-                           (a.value is False) == is_err, key=f"label|{fi.qual}|{a.value}|{n(b).split('.')[-1] if b is not None else ''}|{count}")
+                           (a.value is False) == is_err, key=f"label|{fi.qual}|{a.value}|{label}|{count}")
                 else:
                     chk.ob("R01.3", fi.where(c), "setSuccessState is called with a literal success flag", None, n(c)[:80])
     for q in ("solveWall", "findWallVelocityDetonation"):
         fi = S.func(f"{EOM}.{q}")
         g = CFG(fi.node)
-        labels = set(g.stmts_calling("setSuccessState"))
+        cx = Ctx(S, fi)
+        R = _result_name(fi)
+        labels = set(_method_stmts(g, R, {"setSuccessState"}))
         rets = [r for r in g.nodes if isinstance(r, ast.Return)]
         for r in rets:
-            if n(r.value) in ("results", "[results]"):
+            shape = "result" if eqx(r.value, R, cx) else "[result]" if eqx(r.value, f"[{R}]", cx) else None
+            if shape is not None:
                 ok = g.must_pass(CFG.ENTRY, r, lambda x: x in labels)
                 chk.ob("R01.3", fi.where(r), f"{q}: `return {n(r.value)}` is reached only after the result was labelled by setSuccessState", ok,
-                       key=f"labelled|{q}|{n(r.value)}")
+                       key=f"labelled|{q}|{shape}")
     # RUNAWAY in solveWall only under pressureMax < 0 and with no velocity
-    fs = S.func(f"{EOM}.solveWall")
-    for guards, st in walk_guarded(fs.node):
-        if isinstance(st, ast.Expr) and isinstance(st.value, ast.Call) and n(st.value.func) == "results.setSuccessState" and "RUNAWAY" in n(st.value):
-            gtxt = [n(t).replace(" ", "") for t, pol in guards if pol and not isinstance(t, tuple)]
-            chk.ob("R01.3", fs.where(st), "solveWall reports RUNAWAY only when the pressure at the top of the window is negative", "pressureMax<0" in gtxt,
-                   str(gtxt), key="runaway-guard")
-            blk = None
-            for x in own_nodes(fs.node):
-                if isinstance(x, ast.If) and n(x.test).replace(" ", "") == "pressureMax<0":
-                    blk = x
-            novel = blk is not None and any(isinstance(s_, ast.Expr) and isinstance(s_.value, ast.Call) and n(s_.value.func) == "results.setWallVelocities"
-                                            and isinstance(s_.value.args[0], ast.Constant) and s_.value.args[0].value is None for s_ in blk.body)
-            chk.ob("R01.3", fs.where(st), "and then no wall velocity is returned", novel, key="runaway-no-velocity")
+    sw = _SolveWall(chk)
+    fs, g, cx = sw.fs, sw.g, sw.cx
+    PMAX = sw.end_pressure("wallPressureResultsMax")
+    novel = [x for x in sw.velset if _is_none(cx.resolve(kwarg(x.value, "wallVelocity", 0)))]
+    for st in sw.labels:
+        if _label_of(kwarg(st.value, "solutionType", 1), cx)[0] == "RUNAWAY":
+            gok = len(PMAX) == 1 and any(_holds_under(g, st, (f"{p} < 0",), cx) for p in PMAX)
+            chk.ob("R01.3", fs.where(st), "solveWall reports RUNAWAY only when the pressure at the top of the window is negative", gok,
+                   str([n(t) for t, pol in _dominating_tests(g, st) if pol]), key="runaway-guard")
+            # every path to the report stores `no velocity`, none stores a velocity
+            nv = g.must_pass(CFG.ENTRY, st, lambda q: q in novel) and not any(st in g.reachable(x) for x in sw.velset if x not in novel)
+            chk.ob("R01.3", fs.where(st), "and then no wall velocity is returned", nv, key="runaway-no-velocity")
     chk.floor("R01.3", 14)
 
 
+def _reads(q, flag: str, cx: Ctx) -> bool:
+    """CFG node q reads the attribute, directly or inside a simple extracted helper it calls"""
+    if reads_of(q, flag):
+        return True
+    if isinstance(q, (ast.FunctionDef, ast.AsyncFunctionDef, ast.ClassDef, ast.ExceptHandler, ast.With)):
+        return False
+    return any(isinstance(c, ast.Call) for c in ast.walk(q)) and reads_of(cx.resolve(q, keep=set(cx.local_defs())), flag)
+
+
 def r01_4(chk: Check):
-    S = chk.src
-    fs = S.func(f"{EOM}.solveWall")
-    g = CFG(fs.node)
+    sw = _SolveWall(chk)
+    fs, g, cx = sw.fs, sw.g, sw.cx
     evals = set(g.stmts_calling("wallPressure"))
     flags = ("self.successWallPressure", "self.successTemperatureProfile")
     cnt = 0
-    for x in g.nodes:
-        if isinstance(x, ast.Expr) and isinstance(x.value, ast.Call) and n(x.value.func) == "results.setSuccessState":
-            a = kwarg(x.value, "success", 0)
-            if not (isinstance(a, ast.Constant) and a.value is True):
-                continue
-            cnt += 1
-            missing = []
-            for fl in flags:
-                readers = {q for q in g.nodes if g.kind.get(q) != "def" and reads_of(q, fl)}
-                # every path from a pressure evaluation to this success report must read the flag
-                for e in evals:
-                    if x in g.reachable(e) and not g.must_pass(e, x, lambda q: q in readers):
-                        # ... unless another evaluation lies in between on that path (then that one is the relevant one)
-                        if not g.must_pass(e, x, lambda q: q in readers or (q in evals and q is not e)):
-                            missing.append(fl.split(".")[-1])
-                            break
-            label = n(kwarg(x.value, "solutionType", 1)).split(".")[-1]
-            chk.ob("R01.4", fs.where(x), f"solveWall reports success ({label}) only after consulting successWallPressure and successTemperatureProfile "
-                   "of the pressure evaluation it relies on", not missing,
-                   f"flag(s) never read on a path from the evaluation to this report: {sorted(set(missing))}", key=f"flags-consulted|{label}")
+    for x in sw.labels:
+        a = kwarg(x.value, "success", 0)
+        a = cx.resolve(a) if a is not None else None
+        if not (isinstance(a, ast.Constant) and a.value is True):
+            continue
+        cnt += 1
+        missing = []
+        for fl in flags:
+            readers = {q for q in g.nodes if g.kind.get(q) != "def" and _reads(q, fl, cx)}
+            # every path from a pressure evaluation to this success report must read the flag
+            for e in evals:
+                if x in g.reachable(e) and not g.must_pass(e, x, lambda q: q in readers):
+                    # ... unless another evaluation lies in between on that path (then that one is the relevant one)
+                    if not g.must_pass(e, x, lambda q: q in readers or (q in evals and q is not e)):
+                        missing.append(fl.split(".")[-1])
+                        break
+        label = _label_of(kwarg(x.value, "solutionType", 1), cx)[0]
+        chk.ob("R01.4", fs.where(x), f"solveWall reports success ({label}) only after consulting successWallPressure and successTemperatureProfile "
+               "of the pressure evaluation it relies on", not missing,
+               f"flag(s) never read on a path from the evaluation to this report: {sorted(set(missing))}", key=f"flags-consulted|{label}")
     if cnt < 2:
         raise AnchorMissing("solveWall: success reports not found")
     chk.floor("R01.4", 2)
@@ -227,9 +594,9 @@ def r01_5(chk: Check):
     writers = {}
     for fi in S.all_funcs():
         for x in own_nodes(fi.node):
-            tg = x.targets if isinstance(x, ast.Assign) else []
-            for t in tg:
-                if isinstance(t, ast.Attribute) and t.attr in table:
+            tg = list(x.targets) if isinstance(x, ast.Assign) else [x.target] if isinstance(x, (ast.AugAssign, ast.AnnAssign)) else []
+            for t in [y for t_ in tg for y in ast.walk(t_)]:
+                if isinstance(t, ast.Attribute) and t.attr in table and isinstance(t.ctx, ast.Store):
                     writers.setdefault(t.attr, []).append((fi, x))
     for flag, (owner, init) in table.items():
         ws = writers.get(flag, [])
@@ -239,8 +606,10 @@ def r01_5(chk: Check):
         fo = S.func(f"{EOM}.{owner}")
         chk.touch(fo.name)
         g = CFG(fo.node)
-        resets = [x for x in g.nodes if isinstance(x, ast.Assign) and n(x.targets[0]) == f"self.{flag}" and n(x.value) == "True"]
-        lowers = [x for x in g.nodes if isinstance(x, ast.Assign) and n(x.targets[0]) == f"self.{flag}" and n(x.value) == "False"]
+        co = Ctx(S, fo)
+        stores = [x for x in g.nodes if isinstance(x, ast.Assign) and len(x.targets) == 1 and eqx(x.targets[0], f"self.{flag}")]
+        resets = [x for x in stores if eqx(_through(g, x, x.value), "True", co)]
+        lowers = [x for x in stores if eqx(_through(g, x, x.value), "False", co)]
         ok = len(resets) == 1 and bool(lowers) and all(g.must_pass(CFG.ENTRY, l_, lambda q: q in resets) for l_ in lowers)
         # reset happens before any loop / callee that could lower it
         loops = [x for x in g.nodes if g.kind.get(x) in ("iter", "test") and isinstance(getattr(g, "header_of", {}).get(x), (ast.While, ast.For))]
@@ -262,22 +631,39 @@ LONG_LIVED_STORES = {
 MANAGER_SOLVER_METHODS = ("solveWall", "solveWallDetonation", "wallSpeedLTE", "setupWallSolver", "buildGrid", "buildEOM")
 
 
+def _unconditional(g: CFG, node) -> bool:
+    return node is not None and g.must_pass(CFG.ENTRY, CFG.EXIT, lambda q: q is node)
+
+
 def r01_6(chk: Check):
     S = chk.src
     # fresh objects per call
     fsu = S.func("manager:WallGoManager.setupWallSolver")
     chk.touch(fsu.name)
-    built = {n(st.targets[0]) if isinstance(st, ast.Assign) else n(st.target): n(st.value)[:60] for st in own_nodes(fsu.node)
-             if isinstance(st, (ast.Assign, ast.AnnAssign)) and st.value is not None}
-    ok = built.get("grid", "").startswith("self.buildGrid(") and built.get("boltzmannSolver", "").startswith("BoltzmannSolver(") and \
-        built.get("eom", "").startswith("self.buildEOM(grid, boltzmannSolver")
-    chk.ob("R01.6", fsu.where(), "setupWallSolver builds a fresh grid, BoltzmannSolver and EOM on every call", ok, str({k: built.get(k) for k in ("grid", "boltzmannSolver", "eom")}),
-           key="fresh-objects")
+    gs = CFG(fsu.node)
+    cs = Ctx(S, fsu)
+    mk = {"grid": calls_in(fsu.node, "self.buildGrid"), "boltzmannSolver": [c for c in calls_in(fsu.node, "BoltzmannSolver") if isinstance(c.func, ast.Name)],
+          "eom": calls_in(fsu.node, "self.buildEOM")}
+    ok = all(len(v) == 1 and _unconditional(gs, gs.node_of(v[0])) for v in mk.values())
+    shown = {k: n(v[0])[:60] if v else "" for k, v in mk.items()}
+    if ok:
+        G, B, E = (mk[k][0] for k in ("grid", "boltzmannSolver", "eom"))
+        # the EOM is built on the grid and the Boltzmann solver made here, and these three objects are what is handed out
+        ok = _is_value_of(cs, kwarg(E, "grid", 0), G) and _is_value_of(cs, kwarg(E, "boltzmannSolver", 1), B)
+        rets = [r for r in own_nodes(fsu.node) if isinstance(r, ast.Return)]
+        for r in rets:
+            v = _definition(cs, r.value)
+            ok = ok and isinstance(v, ast.Call) and eqx(v.func, "WallSolver") and _is_value_of(cs, kwarg(v, "eom", 0), E) and _is_value_of(cs, kwarg(v, "grid", 1), G) \
+                and _is_value_of(cs, kwarg(v, "boltzmannSolver", 2), B)
+        ok = ok and len(rets) == 1
+    chk.ob("R01.6", fsu.where(), "setupWallSolver builds a fresh grid, BoltzmannSolver and EOM on every call", ok, str(shown), key="fresh-objects")
     for q, ctor in (("buildGrid", "Grid3Scales"), ("buildEOM", "EOM")):
         f_ = S.func(f"manager:WallGoManager.{q}")
         chk.touch(f_.name)
+        cq = Ctx(S, f_)
         rets = [r for r in own_nodes(f_.node) if isinstance(r, ast.Return)]
-        ok = len(rets) == 1 and isinstance(rets[0].value, ast.Call) and n(rets[0].value.func) == ctor
+        v = cq.resolve(rets[0].value) if len(rets) == 1 and rets[0].value is not None else None
+        ok = len(rets) == 1 and isinstance(v, ast.Call) and eqx(v.func, ctor)
         chk.ob("R01.6", f_.where(), f"{q} returns a newly constructed {ctor}", ok, key=f"ctor|{q}")
     for q in ("solveWall", "solveWallDetonation"):
         f_ = S.func(f"manager:WallGoManager.{q}")
@@ -316,21 +702,28 @@ def r01_6(chk: Check):
     # the interpolated free energies cannot grow during solving: adaptive updates are disabled before any solver can run
     fr = S.func("manager:WallGoManager.initTemperatureRange")
     g = CFG(fr.node)
+    cr = Ctx(S, fr)
     dis = g.stmts_calling("disableAdaptiveInterpolation")
     tr = g.stmts_calling("tracePhase")
     ok = len(dis) == 2 and bool(tr) and all(g.must_pass(CFG.ENTRY, t, lambda x: x in dis) for t in tr) and \
-        {n(d.value.func) for d in dis if isinstance(d, ast.Expr)} == {"self.thermodynamics.freeEnergyHigh.disableAdaptiveInterpolation",
-                                                                     "self.thermodynamics.freeEnergyLow.disableAdaptiveInterpolation"}
+        {nf(cr.resolve(d.value.func)) for d in dis if isinstance(d, ast.Expr) and isinstance(d.value, ast.Call)} == {
+            P("self.thermodynamics.freeEnergyHigh.disableAdaptiveInterpolation"), P("self.thermodynamics.freeEnergyLow.disableAdaptiveInterpolation")}
     chk.ob("R01.6", fr.where(), "adaptive interpolation of both free energies is disabled right after they are created (their tables cannot change during solving)",
            ok, key="no-adaptive-growth")
     ffe = S.func("freeEnergy:FreeEnergy.__init__")
-    ok = any(isinstance(c, ast.Call) and n(c.func) == "self.setExtrapolationType" and [n(a) for a in c.args] == ["EExtrapolationType.ERROR", "EExtrapolationType.ERROR"]
-             for c in own_nodes(ffe.node))
+    cf = Ctx(S, ffe)
+    ok = any(isinstance(c, ast.Call) and eqx(c.func, "self.setExtrapolationType") and eqx(kwarg(c, "extrapolationTypeLower", 0), "EExtrapolationType.ERROR", cf)
+             and eqx(kwarg(c, "extrapolationTypeUpper", 1), "EExtrapolationType.ERROR", cf) for c in own_nodes(ffe.node))
     chk.ob("R01.6", ffe.where(), "free energies refuse evaluation outside their table (ERROR extrapolation): no silent direct evaluation either", ok, key="error-extrapolation")
     # the Boltzmann background stored in the result is never boosted (deep copy inside the solver)
     fb = S.func("boltzmann:BoltzmannSolver.setBackground")
-    ok = any(isinstance(st, ast.Assign) and n(st.targets[0]) == "self.background" and isinstance(st.value, ast.Call) and (dotted(st.value.func) or "").endswith("deepcopy")
-             for st in own_nodes(fb.node))
+    cb = Ctx(S, fb)
+    prm = [a_.arg for a_ in fb.node.args.args][1:]
+    stores = [st for st in own_nodes(fb.node) if isinstance(st, ast.Assign) and any(eqx(t, "self.background") for t in st.targets)]
+    ok = bool(stores) and len(prm) == 1
+    for st in stores:
+        v = cb.resolve(st.value)
+        ok = ok and isinstance(v, ast.Call) and (dotted(v.func) or "").endswith("deepcopy") and len(v.args) == 1 and eqx(v.args[0], prm[0])
     chk.ob("R01.6", fb.where(), "the Boltzmann solver boosts a deep copy: the background returned with the result stays in the wall frame", ok, key="deepcopy")
     from ..core import shared_mutable_class_state
     shared = shared_mutable_class_state(S)
@@ -361,12 +754,13 @@ def r01_7(chk: Check):
         site = None
         for name, f_ in mgr.methods.items():
             for c in own_nodes(f_.node):
-                if isinstance(c, ast.Call) and n(c.func) == ctor:
+                if isinstance(c, ast.Call) and isinstance(c.func, ast.Name) and c.func.id == ctor:
                     site = (f_, c)
         if site is None:
             raise AnchorMissing(f"manager: construction of {ctor} not found")
         f_, c = site
         chk.touch(f_.name)
+        cx = Ctx(S, f_)
         target = None
         for m_ in S.modules.values():
             if ctor in m_.classes:
@@ -379,21 +773,11 @@ def r01_7(chk: Check):
         for k in c.keywords:
             if k.arg:
                 bound[k.arg] = k.value
-        defs = {}
-        for st in own_nodes(f_.node):
-            if isinstance(st, ast.Assign) and isinstance(st.targets[0], ast.Name):
-                defs[st.targets[0].id] = st.value
         for p, path in mapping.items():
             a = bound.get(p)
-            srcs = ""
-            if a is not None:
-                seen = 0
-                e = a
-                while isinstance(e, ast.Name) and e.id in defs and seen < 4:
-                    e = defs[e.id]
-                    seen += 1
-                srcs = n(e)
-            ok = a is not None and f"self.config.{path}" in srcs
+            e = cx.resolve(a) if a is not None else None
+            srcs = n(e) if e is not None else ""
+            ok = a is not None and has(e, f"self.config.{path}")
             chk.ob("R01.7", f_.where(c), f"{ctor}({p}=...) receives the configured value config.{path} (not a hard-wired or default value)", ok,
                    f"argument: {n(a) if a is not None else 'not passed (constructor default is used)'} <- {srcs}", key=f"plumbing|{ctor}.{p}")
     chk.floor("R01.7", 15)
